@@ -267,7 +267,9 @@ class C08(Prop):
     lean_modules = ["PkgProofs.Props.C08"]
     theorems = ["C08.str_roundtrip", "C08.str_idempotent", "C08.url_xor_spec", "C08.eq_is_pep503_and_spec_eq",
                 "C08.eq_equivalence", "C08.hash_agrees", "C08.extras_as_set", "C08.marker_after_url_needs_ws",
-                "C08.requirement_marker_eq_marker", "C08.parse_wf", "C08.parsed_roundtrip", "C08.requirement_roundtrip", "C08.Examples.glued_semicolon", "C08.Examples.f05_rejected",
+                "C08.requirement_marker_eq_marker", "C08.parse_wf", "C08.parsed_roundtrip", "C08.requirement_roundtrip", "C08.parse_render", "C08.Examples.lay_ok", "ReqLayout.parseSource_layout",
+                "ReqLayout.check_clause", "ReqLayout.versionMany_layout", "ReqLayout.parseExtras_layout",
+                "ReqLayout.parseReqMarker_text", "ReqLayout.mkSpecSet_raw", "C08.Examples.glued_semicolon", "C08.Examples.f05_rejected",
                 "C08.Examples.f06_str_depends_on_order", "C08.Examples.specifier_rule_tied",
                 "ReqClause.verForm_app", "ReqClause.stages_of_scanCore", "ReqClause.verForm_clause", "ReqClause.matchSpecifier_op",
                 "ReqClause.tokExact_of_parse", "ReqClause.ver_chars_of_parse", "ReqClause.takeKw_pre_rest", "ReqWf.name_identOK",
@@ -286,11 +288,10 @@ class C08(Prop):
                "the body of every SPECIFIER alternative is mirrored by the hand-written prefix scanner Req.verForm; the "
                "translator re-checks on every run that the rule still has the shape the scanner mirrors (operators, guards, "
                "keyword lists and repetition bounds are data) and that it is literally the body of Specifier._regex (C12)"]
-    partial = ["parse_render (stretch): 'parse(render x) = sem x for every white-space layout x' is not a theorem; arbitrary layouts "
-               "(white space at every wsp* position, parenthesised lists, white space after the operator) are covered by the "
-               "correspondence (req.parse / req.match on rendered structures) and by the law parts_recovered on the real code; "
-               "the theorems cover them on the *output* side: requirement_roundtrip, parse_wf, url_xor_spec, "
-               "marker_after_url_needs_ws and requirement_marker_eq_marker hold for whatever text was accepted",
+    partial = ["parse_render is proved for every layout except the class of finding F05 (Layout.OK asks for white space between "
+               "an === clause and a comma after it, and a non-empty === text); layouts use the PEP 508 wsp (space, tab): the "
+               "further ASCII white space the SPECIFIER rule tolerates after an operator (newline, form feed ...) and a final "
+               "newline before END are covered by the correspondence only",
                "requirement_roundtrip assumes the marker's literals are PEP 508 strings (C09.LitOK: no backslash, CR, LF, NUL, "
                "surrogate; not both quote characters) — the same condition as C09.constructed_marker_roundtrip",
                "the bodies of the SPECIFIER alternatives are mirrored by the hand-written prefix scanner Req.verForm and tied by "
